@@ -39,7 +39,7 @@ TIMEOUT = {'quick': 600, 'thorough': 3000}
 
 OPS = ['', '=', '<>', '<', '<=', '>', '>=']
 WORDS = ['apple', 'Banana', 'cherry', 'date', 'Elder', 'fig', 'grape',
-         'APPLE', 'banana', 'kiwi']
+         'APPLE', 'banana', 'kiwi', 'two\nlines', 'two', 'two\nwords']
 S = 'Sheet1'
 F4 = (False,) * 4
 
@@ -164,9 +164,18 @@ def run(ctx):
     def gen_column(kind=None):
         n = rng.randint(1, 10)
         kind = kind or rng.choice(['num', 'text', 'mixed'])
+        close_keys = kind == 'num' and rng.random() < 0.2
+        if close_keys:
+            ctx.event('columns_of_close_keys')
         col = []
         for _ in range(n):
-            if kind == 'num' or (kind == 'mixed' and rng.random() < 0.5):
+            if kind == 'num' and close_keys:
+                # keys that agree in their first 15 significant digits
+                col.append(rng.choice([1234567890123456, 1234567890123457,
+                                       1234567890123458, 0.1 + 0.2, 0.3,
+                                       0.30000000000000010, 1e15 + 0.5,
+                                       1e15 + 0.25]))
+            elif kind == 'num' or (kind == 'mixed' and rng.random() < 0.5):
                 col.append(rng.choice([0, 1, 2, 3, 5, 10, -1, -2.5, 2.5, 7,
                                        100, -10, 0.5]))
             else:
